@@ -31,6 +31,9 @@ LAYOUTS = {
     "three-splits": dict(E=2, sessions=[("root", [("train", 2), ("test", 2), ("holdout", 3)])]),
     "four-shards": dict(E=1, sessions=[("root", [("train", 4)])]),
     "five-shards": dict(E=2, sessions=[("root", [("train", 9)]), ("sub:b", [("test", 1)])]),
+    # no checksum algorithms configured; every interface has already iterated every split on this handle BEFORE the last
+    # session added data (nothing remembered from an earlier pass may hide the new shards)
+    "grown": dict(E=2, hashes=(), iterate_between=True, sessions=[("root", [("train", 3), ("test", 1)]), ("root", [("train", 2)])]),
 }
 
 
@@ -48,11 +51,13 @@ def build(tmp: Path, layout: str):
     """Returns (dataset, table path->[ids], written: split -> list of (session index, id) in write order)."""
     from sedpack.io.dataset_filler import DatasetFiller
     spec = LAYOUTS[layout]
-    d = fillerlab.make_dataset(tmp / "ds", eps=spec["E"])
+    d = fillerlab.make_dataset(tmp / "ds", eps=spec["E"], hashes=spec.get("hashes", ("md5",)))
     written: dict[str, list] = {}
     v = 0
     for si, sess in enumerate(spec["sessions"]):
         kind = sess[0]
+        if si > 0 and spec.get("iterate_between"):
+            _iterate_everything_once(d)
         if kind == "multi":
             plans = sess[1:]
             starts = []
@@ -82,6 +87,21 @@ def build(tmp: Path, layout: str):
         for s in d.shard_info_iterator(split):
             table[str(d.path / s.file_infos[0].file_path)] = fillerlab.decode_values(d, s)
     return d, table, written
+
+
+def _iterate_everything_once(d):
+    """One finite pass of every split through every real interface (real decoders, real threads)."""
+    import asyncio
+    for split in list(d._dataset_info.splits):
+        kw = dict(split=split, repeat=False)
+        for shuffle in (0, 2):
+            list(d.as_numpy_iterator(shuffle=shuffle, **kw))
+            list(d.as_numpy_iterator_concurrent(shuffle=shuffle, file_parallelism=2, **kw))
+            list(d.as_numpy_iterator_rust(shuffle=shuffle, file_parallelism=2, **kw))
+
+            async def drain(shuffle=shuffle):
+                return [x async for x in d.as_numpy_iterator_async(shuffle=shuffle, file_parallelism=2, **kw)]
+            asyncio.run(drain())
 
 
 class Monitor:
